@@ -245,16 +245,43 @@ fn sub_exhaustive(input: &[u8], st: &mut Stats) -> R {
     Ok(())
 }
 
+include!(concat!(env!("OUT_DIR"), "/declared_aliases.rs"));
+
+/// `declared-aliases`: the alias constants the working tree's `spirv` crate declares (read from its
+/// sources at build time - a declaration cannot be enumerated through the API): each is the value it
+/// aliases and its name parses to that value
+fn sub_declared_aliases(input: &[u8], st: &mut Stats) -> R {
+    let k = idx(input) as usize;
+    let Some((ty, alias, target, vals, parse)) = DECLARED_ALIASES.get(k) else { return Ok(()) };
+    let (a, b) = no_panic("alias constant", || vals())?;
+    let f = |clause: &str, msg: String| Fail::new(clause, format!("{}::{}", ty, alias), msg);
+    if a != b {
+        return Err(f("alias-value", format!("{}::{} = {} but {}::{} = {}", ty, alias, a, ty, target, b)));
+    }
+    let got = no_panic("from_str(alias)", || parse(alias))?;
+    if got != Some(b) {
+        return Err(f("alias-parses", format!("{}: the declared alias {} parses to {:?}, the value it aliases ({}) is {}", ty, alias, got, target, b)));
+    }
+    let gt = no_panic("from_str(target)", || parse(target))?;
+    if gt != Some(b) {
+        return Err(f("name-parses-back", format!("{}: {} parses to {:?}, its value is {}", ty, target, gt, b)));
+    }
+    st.nontrivial(k as u64);
+    Ok(())
+}
+
 pub const SUBS: &[Sub] = &[
     Sub { name: "types", f: sub_types },
     Sub { name: "random-words", f: sub_random },
     Sub { name: "exhaustive", f: sub_exhaustive },
+    Sub { name: "declared-aliases", f: sub_declared_aliases },
 ];
 
 pub fn run(ctx: &Ctx) {
     run_regress(ctx, SUBS);
     drive_enum(ctx, &SUBS[0], ENUMS.len() as u64);
     drive_random(ctx, &SUBS[1], ctx.n(20_000, 200_000), 400);
+    drive_enum(ctx, &SUBS[3], DECLARED_ALIASES.len() as u64);
     if !ctx.quick() {
         drive_enum(ctx, &SUBS[2], ENUMS.len() as u64 * 256);
         ctx.exhaustive.store(true, std::sync::atomic::Ordering::Relaxed);
